@@ -4,6 +4,8 @@ from __future__ import annotations
 
 from typing import Any, List
 
+from hypothesis import strategies as st
+
 from .. import cases, cexec, rtcheck, strategies as S
 from ..runner import FuncPart, HypPart, Stats, Violation
 from . import c04
@@ -27,7 +29,7 @@ ASSUMPTIONS = [
     "-DBP_BIG_ENDIAN and are excluded from (b); no emulator is available",
     "the harness's own bit loop (rt.c) and ref.py are the specification",
 ]
-REQUIRED_LABELS = ["width_gt8", "straddle_byte", "rt:be", "std:be"]
+REQUIRED_LABELS = ["width_gt8", "straddle_byte", "rt:be", "std:be", "rt:announce:__big_endian__", "rt:announce:__LITTLE_ENDIAN__==0"]
 
 BE_BUILDS = [
     ("O-little", True, "little", False),
@@ -41,22 +43,29 @@ def run_a(case: cases.SVCase, stats: Stats) -> None:
 
 
 RT_JOBS = [
-    ("gcc", "-O0", False),
-    ("gcc", "-O2", False),
-    ("clang", "-O2", False),
-    ("gcc", "-O1", True),
-    ("clang", "-O1", True),
+    ("gcc", "-O0", False, "BP_BIG_ENDIAN"),
+    ("gcc", "-O2", False, "BP_BIG_ENDIAN"),
+    ("clang", "-O2", False, "BP_BIG_ENDIAN"),
+    ("gcc", "-O1", True, "BP_BIG_ENDIAN"),
+    # every documented way a big-endian host is recognised selects the same paths
+    ("gcc", "-O2", False, "__BYTE_ORDER__"),
+    ("gcc", "-O2", False, "__ARM_BIG_ENDIAN"),
+    ("gcc", "-O2", False, "__big_endian__"),
+    ("clang", "-O2", False, "__BIG_ENDIAN__"),
+    ("clang", "-O2", False, "__LITTLE_ENDIAN__==0"),
+    ("clang", "-O1", True, "BP_BIG_ENDIAN"),
 ]
 
 
 def rt_jobs(tier: str, seed: int) -> List[Any]:
-    return RT_JOBS if tier == "thorough" else RT_JOBS[:4]
+    return RT_JOBS if tier == "thorough" else RT_JOBS[:9]
 
 
 def run_rt_job(job: Any, stats: Stats) -> None:
-    cc, opt, san = job
+    cc, opt, san, announce = job
+    stats.count("rt:announce:" + announce)
     try:
-        be = rtcheck.run_rt(cc, opt, True, san)
+        be = rtcheck.run_rt(cc, opt, True, san, announce)
         le = rtcheck.run_rt(cc, opt, False, san)
     except cexec.CBuildError as e:
         raise Violation(f"runtime does not build with -DBP_BIG_ENDIAN ({cc} {opt}): {e}", signature="rt-build")
@@ -83,7 +92,7 @@ def run_rt_job(job: Any, stats: Stats) -> None:
 def std_be_strategy(tier: str) -> Any:
     # what can be simulated on x86: no extensible types (native 16-bit prefix), signed widths 8/16/32/64 only
     feat = S.Features(extensible=False, ext_arrays=False, signed_nonstd=False, bits_budget=500, big=False, max_files=2)
-    return cases.sv_cases(feat, nrand=2)
+    return cases.sv_cases(feat, nrand=2, config=st.fixed_dictionaries({"be_announce": st.sampled_from(sorted(cexec.BE_ANNOUNCE))}))
 
 
 def run_std_be(case: cases.SVCase, stats: Stats) -> None:
@@ -102,7 +111,7 @@ def run_std_be(case: cases.SVCase, stats: Stats) -> None:
         if not msgs:
             return
         try:
-            drv = cexec.CDriver(case.unit, cdir, msgs, cexec.CConfig("gcc", "-O1", big_endian=True), with_json=False, workdir=cu.outdir("drv"), be_storage=True)
+            drv = cexec.CDriver(case.unit, cdir, msgs, cexec.CConfig("gcc", "-O1", big_endian=True, be_announce=case.config.get("be_announce", "BP_BIG_ENDIAN")), with_json=False, workdir=cu.outdir("drv"), be_storage=True)
         except cexec.CBuildError as e:
             raise Violation(f"standard-mode C does not build with -DBP_BIG_ENDIAN: {e}", signature="cbuild")
         digest = cases.unit_digest(cu.texts)
